@@ -313,8 +313,9 @@ def families(prop, tier):
     if prop in ('C13',):
         cases = []
         for kind in ('smtp', 'lmtp'):
-            for i1, s1 in enumerate([{'eod': 'stall'}, {'mail': 'stall'}, {'banner': 'stall'}, {'eod': 'disconnect'}, {'banner': 421}, {'eod': 450},
-                                     {'rcpt': [450, 450, 450]}, 'refuse']):
+            # (only failures that cost time - the relay's own "timed out": on a tree whose queue bounces bounces for ever a failure
+            #  that costs none turns one step of the driver into an endless loop that eats memory faster than the watchdog fires)
+            for i1, s1 in enumerate([{'eod': 'stall'}, {'mail': 'stall'}, {'banner': 'stall'}, {'data': 'stall'}]):
                 for bo in ([None], [0, None]):
                     if q and (i1 + len(bo)) % 2 and kind == 'lmtp':
                         continue
